@@ -414,6 +414,23 @@ ApplyReceipts(vals, itxs) ==
                         ELSE SeqFilterOut(vals, t.peer)
          IN  ApplyReceipts(v1, Tail(itxs))
 
+\* core.processAcceptedInternalTransactions(roundReceived, receipts): the new
+\* set (the latest validators +- the accepted peers) becomes effective at
+\* round-received + ActivationDelay.  itxs carry the application's answer (ok).
+ApplyMembership(h, rr, itxs, me) ==
+    LET changed == \E k \in DOMAIN itxs : itxs[k].ok
+        eff == rr + ActivationDelay
+        vals1 == ApplyReceipts(h.validators, itxs)
+        clash == changed /\ eff \in DOMAIN h.ps
+        selfRemoved == \E k \in DOMAIN itxs : itxs[k].ok /\ itxs[k].typ = "rem" /\ itxs[k].peer = me
+        h1 == [ h EXCEPT !.removedRound = IF selfRemoved THEN eff ELSE @ ]
+    IN  IF ~changed THEN h1
+        ELSE IF clash THEN [ h1 EXCEPT !.psErr = TRUE, !.lastPeerChange = eff ]
+        ELSE [ h1 EXCEPT !.ps = Ext(@, eff, vals1),
+                         !.validators = vals1,
+                         !.lastPeerChange = eff,
+                         !.targetRound = MaxI(@, eff) ]
+
 \* core.commit with a deterministic application
 CoreCommit(D, h, b) ==
     LET member == h.me \in Members(h, b.rr)
@@ -422,24 +439,12 @@ CoreCommit(D, h, b) ==
         n  == Cardinality(Members(h, b.rr))
         anchor1 == IF Cardinality(b1.sigs) > TrustCount(n) /\ (h.anchor = -1 \/ b.idx > h.anchor)
                    THEN b.idx ELSE h.anchor
-        changed == \E k \in DOMAIN b.itxs : b.itxs[k].ok
-        eff == b.rr + ActivationDelay
-        vals1 == ApplyReceipts(h.validators, b.itxs)
-        clash == changed /\ eff \in DOMAIN h.ps
-        selfRemoved == \E k \in DOMAIN b.itxs :
-                          b.itxs[k].ok /\ b.itxs[k].typ = "rem" /\ b.itxs[k].peer = h.me
         h1 == [ h EXCEPT !.blocks = Ext(@, b.idx, b1),
                          !.lastBlock = MaxI(@, b.idx),
                          !.out = Append(@, b1),
                          !.selfSigs = IF member THEN @ \cup { b.idx } ELSE @,
-                         !.anchor = anchor1,
-                         !.removedRound = IF selfRemoved THEN eff ELSE @ ]
-    IN  IF ~changed THEN h1
-        ELSE IF clash THEN [ h1 EXCEPT !.psErr = TRUE, !.lastPeerChange = eff ]
-        ELSE [ h1 EXCEPT !.ps = Ext(@, eff, vals1),
-                         !.validators = vals1,
-                         !.lastPeerChange = eff,
-                         !.targetRound = MaxI(@, eff) ]
+                         !.anchor = anchor1 ]
+    IN  ApplyMembership(h1, b.rr, b.itxs, h.me)
 
 \* one decided pending round
 ProcessRound(D, h, r) ==
@@ -542,7 +547,8 @@ Reset(D, h, blk, fr) ==
     LET base == InitHG(<< >>, h.me)
         h0 == [ base EXCEPT !.ps = fr.psets,
                             !.frames = (fr.round :> fr),
-                            !.validators = h.validators,
+                            !.sigpool = h.sigpool,          \* PendingSignatures is not cleared by Reset
+                            !.validators = fr.peers,        \* core.fastForward
                             !.selfSigs = h.selfSigs,
                             !.removedRound = h.removedRound,
                             !.targetRound = h.targetRound,
